@@ -1,6 +1,7 @@
 import MxModel.Props.C01
 import MxModel.Props.C06
 import MxModel.Proofs.ExecCertRunOps
+import MxModel.Proofs.ExecResolveSM
 /-!
 # C02 – no stale value survives any edit
 
@@ -251,6 +252,84 @@ theorem no_stale_after_cell_create (env env' : Env) (lt : Node → Node → Prop
     CI env' lt (s.newCell env c) ∧ Good env' (inpOf (s.newCell env c)) (s.newCell env c) :=
   have := newCell_ci h hdead hed hkeep
   ⟨this, this.good⟩
+
+/-! ### the resolution layer: names, namespaces, inheritance
+
+Source-level behaviours `SProg` look global names up in the namespace of the formula's own space
+(`Exec/Resolve.lean`); `resolve ns p` is the behaviour the executor sees; `SEnv.toEnv` the
+definitions (`formula n = resolve (namespace of n's home) (source of n)`; a cells exists when its
+name is bound to it in its home). -/
+
+/-- **the resolved behaviour depends only on the names the source mentions** -/
+theorem resolve_depends_only_on_mentioned_names (ns ns' : Ns) (p : SProg)
+    (h : ∀ x, Mentions p x → ns x = ns' x) : resolve ns p = resolve ns' p :=
+  resolve_congr ns ns' p h
+
+/-- **T7 – an edit that changes the namespaces of a set of spaces `N`** – in ANY way: cells and
+references created, deleted, rebound; derived members appearing in or vanishing from sub spaces –
+**and notifies every cells of every space in `N` leaves no stale value**: instance of T6, because a
+formula outside `N` is resolved in a namespace that did not change.  Derived cells of sub spaces
+are cells whose home is the sub space.  (`hL`: every cells living in `N` is notified or has no
+node; `hinp`: one that holds an input still exists.) -/
+theorem no_stale_after_namespace_edit (se : SEnv) (nss' : Nat → Ns) (N : Nat → Prop) (L : List CellId)
+    (lt : Node → Node → Prop) (s : St) (h : CI se.toEnv lt s)
+    (hN : ∀ sp, ¬ N sp → nss' sp = se.nss sp)
+    (hL : ∀ c, N (se.home c) → c ∈ L ∨ ∀ x ∈ s.gn, x.cell ≠ c)
+    (hinp : ∀ n ∈ s.inputs, N (se.home n.1) → (se.withNss nss').toEnv.alive n.1 = true) :
+    CI (se.withNss nss').toEnv lt (s.notifyAll se.toEnv L) ∧
+    Good (se.withNss nss').toEnv (inpOf (s.notifyAll se.toEnv L)) (s.notifyAll se.toEnv L) :=
+  have := nsEdit_ci se nss' N L h hN hL hinp
+  ⟨this, this.good⟩
+
+/-- **…instantiated with the structural mechanism model** (`Struct/Mech.lean`, `MxModel.SM`): for
+`new_cells`, `set_cells_property` and `del_cells` / `del_ref` at space `p` the namespaces that change
+are those of `SM.St.touched st p` – `p` and the sub spaces the mechanism walks
+(`C13.member_edit_changes_only_touched_spaces`) – so: if every cells living in `p` or in a sub space
+of `p` (derived cells included) is notified, no stale value survives **in sub spaces either**. -/
+theorem no_stale_in_sub_spaces_after_member_edit (se : SEnv) (ids : SM.Ids) (pathOf : Nat → SM.Path)
+    (st st' : SM.St) (p : SM.Path) (hf : SM.Frame st st' p) (L : List CellId) (lt : Node → Node → Prop)
+    (s : St) (h : CI (SM.withStruct se ids pathOf st).toEnv lt s)
+    (hL : ∀ c, pathOf (se.home c) ∈ st.touched p → c ∈ L ∨ ∀ x ∈ s.gn, x.cell ≠ c)
+    (hinp : ∀ n ∈ s.inputs, pathOf (se.home n.1) ∈ st.touched p →
+      (SM.withStruct se ids pathOf st').toEnv.alive n.1 = true) :
+    CI (SM.withStruct se ids pathOf st').toEnv lt (s.notifyAll (SM.withStruct se ids pathOf st).toEnv L) ∧
+    Good (SM.withStruct se ids pathOf st').toEnv
+      (inpOf (s.notifyAll (SM.withStruct se ids pathOf st).toEnv L))
+      (s.notifyAll (SM.withStruct se ids pathOf st).toEnv L) :=
+  have := SM.mech_edit_ci se ids pathOf st st' p hf L h hL hinp
+  ⟨this, this.good⟩
+
+/-! Non-vacuity.  `f(1)` at source level, resolved where `f` is cells 7, where `f` is reference 3
+(the call of an integer: `TypeError`), and where `f` is unbound (`NameError`) – three different
+behaviours; and two namespaces that differ elsewhere give the same behaviour. -/
+def sK : Res → SProg
+  | .ok v => .ret v
+  | .err e => .reraise e
+
+def sCall : SProg := .callN "f" [.int 1] sK (fun _ => .raise (.user 3)) (.raise (.user 4))
+
+example : (match resolve (fun x => if x = "f" then some (.cell 7) else none) sCall with
+      | .call n _ => n = (7, [.int 1]) | _ => False) ∧
+    (match resolve (fun x => if x = "f" then some (.ref 3) else none) sCall with
+      | .read false 3 _ => True | _ => False) ∧
+    (match resolve (fun _ => none) sCall with | .raise (.user 4) => True | _ => False) := by
+  refine ⟨?_, ?_, ?_⟩ <;> simp [sCall, SProg.callN, resolve]
+
+example : resolve (fun x => if x = "f" then some (.cell 7) else if x = "g" then some (.ref 1) else none) sCall =
+    resolve (fun x => if x = "f" then some (.cell 7) else none) sCall :=
+  resolve_depends_only_on_mentioned_names _ _ sCall (by
+    intro x hx
+    have : x = "f" := by
+      simp only [sCall, SProg.callN, Mentions] at hx
+      rcases hx with rfl | ⟨b, hb⟩
+      · rfl
+      · exfalso
+        match b, hb with
+        | some (.cell c), hb => obtain ⟨r, hr⟩ := hb; cases r <;> exact hr
+        | some (.ref r), hb => obtain ⟨o, ho⟩ := hb; exact ho
+        | none, hb => exact hb
+    subst this
+    rfl)
 
 /-! ### every reachable state -/
 
